@@ -1,7 +1,9 @@
 package sql
 
 import (
+	"go/constant"
 	"go/types"
+	"strings"
 
 	an "github.com/benoitkugler/gomacro/analysis"
 	"github.com/benoitkugler/gomacro/analysis/sql"
@@ -41,4 +43,23 @@ func HC16_customConstraint() {
 	got := generateCustomConstraint(ana, ta, rep, content)
 	vfObserve("got", got)
 	vfAssert(got == want, "C16/references-rewritten-add-attached-to-own-table-rest-verbatim")
+}
+
+// HC16_constraintWithEnum: the literal of a string enum constant is emitted as it is, also when its
+// value reads like the name of a table struct of the file (only the constraint's own words are rewritten).
+func HC16_constraintWithEnum() {
+	pkg := skelPkg()
+	named := skelNamed(pkg, "Item", types.NewStruct(nil, nil))
+	st := skelStruct(pkg, named, []skelField{{name: "Id", typ: &an.Basic{B: types.Typ[types.Int64]}}, {name: "Kind", typ: an.String}})
+	value := []string{"Item", "an Item here", "item", "Items", "v"}[vfChoice("value", 5)]
+	en := skelNamed(pkg, "E", types.Typ[types.String])
+	enum := an.VfNewEnum(en, []an.EnumMember{{Const: types.NewConst(0, pkg, "A", en, constant.MakeString(value))}}, false)
+	pkg.Scope().Insert(en.Obj())
+	ana := &an.Analysis{Pkg: &packages.Package{PkgPath: pkg.Path(), Types: pkg}, Types: map[types.Type]an.Type{named: st, en: enum}, Source: []types.Type{named}}
+	ta := sql.NewTable(st)
+	rep := gen.NewTableNameReplacer([]sql.Table{ta})
+	got := generateCustomConstraint(ana, ta, rep, "ADD CHECK (Kind = #[E.A] OR Item IS NULL)")
+	vfObserve("got", got)
+	vfAssert(strings.Contains(got, "Kind = '"+value+"'"), "C16/enum-placeholder-becomes-the-sql-literal-of-the-constant")
+	vfAssert(strings.HasPrefix(got, "ALTER TABLE items ADD CHECK (") && strings.Contains(got, "OR items IS NULL)"), "C16/table-struct-names-of-the-constraint-are-rewritten")
 }
